@@ -97,6 +97,13 @@ Seeded changes missed by the first version and now caught with concrete replays 
           half the smallest subnormal).  Reference = numpy's direct conversion of the same values (RArray store), and
           onnx.helper.make_tensor for FLOAT16/BFLOAT16/FLOAT4E2M1 (for the FP8 types the ONNX encoder itself rounds
           differently from ml_dtypes — saturation / float32 detour — measured on the clean tree, so it is not used there).
+  C04-r6m2 ir.tensor(ndarray / numpy scalar) through np.ascontiguousarray (rank 0 -> shape [1]).  Constructor stream now
+          has, for every dtype, rank-0 arrays through ir.tensor (with / without dtype), numpy scalars through ir.tensor
+          and ir.Tensor, and rank-0 ml / Fortran / strided arrays: shape must stay ().
+  C04-r6m1 proto tobytes() int32_data branch rewritten as a bit-width dispatch (FLOAT4E2M1 -> 4 bytes per stored byte):
+          the dispatch-set extraction failed closed but also stopped the harness; now a function without its expected
+          `dtype in {...}` sets is an error of the generation only, the harness continues with the sets implied by the
+          ONNX storage rules and the oracle produces the concrete input (FLOAT4E2M1 [15] in int32_data).
 Unchanged tree: no VIOLATION for VERIF_SEED 0..3 (only KNOWN-FINDING string-trailing-nul).
 
 Deepening round (2026-09-26):
